@@ -80,8 +80,8 @@ theorem C10_idem_partial {c : HdrCfg} {info : Extracted} {t a hdr b : Text}
 theorem C10_idem_text_partial {c : HdrCfg} {info : Extracted} {t a hdr b : Text}
     (h1 : firstRunParts c info t = some (a, hdr, b)) (h2 : secondRunOK c info a hdr b = true)
     (hcr : NoCR t) (hcr' : NoCR (a ++ hdr ++ ['\n'] ++ b)) :
-    annotateCore c true false info t = .written (a ++ hdr ++ ['\n'] ++ b) ∧
-    annotateCore c true false info (a ++ hdr ++ ['\n'] ++ b) = .written (a ++ hdr ++ ['\n'] ++ b) := by
+    annotateText c true false info t = .written (a ++ hdr ++ ['\n'] ++ b) ∧
+    annotateText c true false info (a ++ hdr ++ ['\n'] ++ b) = .written (a ++ hdr ++ ['\n'] ++ b) := by
   rw [C08.C08_line_endings_lf c true info t hcr, C08.C08_line_endings_lf c true info _ hcr']
   simp only [if_true, C10_first_run h1, C10_second_run_partial h1 h2, and_self]
 
@@ -89,8 +89,8 @@ theorem C10_idem_text_partial {c : HdrCfg} {info : Extracted} {t a hdr b : Text}
 theorem C10_idem_crlf_partial {c : HdrCfg} {info : Extracted} {t a hdr b : Text}
     (h1 : firstRunParts c info t = some (a, hdr, b)) (h2 : secondRunOK c info a hdr b = true)
     (hcr : NoCR t) (hlf : '\n' ∈ t) (hcr' : NoCR (a ++ hdr ++ ['\n'] ++ b)) :
-    annotateCore c true false info (toCRLF t) = .written (toCRLF (a ++ hdr ++ ['\n'] ++ b)) ∧
-    annotateCore c true false info (toCRLF (a ++ hdr ++ ['\n'] ++ b)) = .written (toCRLF (a ++ hdr ++ ['\n'] ++ b)) := by
+    annotateText c true false info (toCRLF t) = .written (toCRLF (a ++ hdr ++ ['\n'] ++ b)) ∧
+    annotateText c true false info (toCRLF (a ++ hdr ++ ['\n'] ++ b)) = .written (toCRLF (a ++ hdr ++ ['\n'] ++ b)) := by
   obtain ⟨e1, e2⟩ := C10_idem_text_partial h1 h2 hcr hcr'
   rw [C08.C08_line_endings_crlf c true info t hcr hlf,
     C08.C08_line_endings_crlf c true info _ hcr' (by simp), e1, e2]
